@@ -398,6 +398,8 @@ REP = {
     # queue stress: L long, A fails, B1/B2 (blocked by A) and C (blocked by B1) flagged, X/Y ordinary
     "cancelfan7": [[], [], [1], [1], [2], [], []],
     "fan5": [[], [0], [0], [0], [0]],
+    # a flagged job with two blockers behind a backlog of unblocked jobs
+    "joinbacklog5": [[], [], [], [], [0, 1]],
     "indep3": [[], [], []],
     "indep4": [[], [], [], []],
 }
